@@ -9,7 +9,7 @@ R_THOROUGH = ["cases.tl", "goldmaster.tl", "goldmaster2.tl", "goldmaster3.tl", "
 
 
 def run_gen(prop, tier, regex, props=None, optsets=("full",), params_q=None, params_t=None, level="model_checking", f_pattern="*",
-            r_quick=(), r_thorough=(), wall_q="90s", wall_t="600s", bounds=None, outside=None, assumptions=(), only=None, max_models_q=6, max_models_t=30,
+            r_quick=(), r_thorough=(), wall_q="12s", wall_t="300s", bounds=None, outside=None, assumptions=(), only=None, max_models_q=6, max_models_t=30,
             max_paths_q=1500, max_paths_t=60000, hgen_extra=(), ladder=None, prim=None):
     c = GenCheck(prop, tier, level)
     params = dict(params_q or {}) if tier == "quick" else dict(params_t or params_q or {})
